@@ -562,7 +562,18 @@ def run_newton(task):
         eos = make_eos(tag)
         try:
             with contextlib.redirect_stdout(io.StringIO()):
-                s = getattr(B, clsname)(eos, {"density": r0, "velocity": u0, "pressure": p0})
+                if (r0, u0, p0) == (1, -1, 0):
+                    # the standard Noh state is the wrappers' DEFAULT argument: use it as such, and construct the wrappers
+                    # of the two other geometries (also with their defaults) between construction and solve -- the solve
+                    # must still be for THIS wrapper's geometry (added after the seeded change S-C16-3: one dict shared by
+                    # the three default arguments)
+                    s = getattr(B, clsname)(eos)
+                    for other in ("PlanarNohBlackBox", "CylindricalNohBlackBox", "SphericalNohBlackBox"):
+                        if other != clsname:
+                            getattr(B, other)(make_eos(tag))
+                    C["solves_with_default_argument_and_decoy_wrappers"] = C.get("solves_with_default_argument_and_decoy_wrappers", 0) + 1
+                else:
+                    s = getattr(B, clsname)(eos, {"density": r0, "velocity": u0, "pressure": p0})
             res["evals"] += 1
         except ValueError:
             C["inadmissible_vectors"] = C.get("inadmissible_vectors", 0) + 1
